@@ -8,9 +8,11 @@ PID = 'C03'
 PROP_MODULE = 'J1939.Props.C03'
 UNITS = ['Tp21.dt', 'Tp21.cts', 'Tp21.rts', 'Tp21.bam', 'Tp21.eom_ack', 'Tp21.abort', 'Tp21.cm_pgn', 'Tp21.cm_control', 'Tp21.rts_size',
          'Tp21.rts_packets', 'Tp21.rts_max', 'Tp21.cts_packets', 'Tp21.cts_next', 'Tp21.bam_size', 'Tp21.bam_packets', 'Tp21.num_packets',
-         'MessageId.ofFields', 'MessageId.can_id', 'PGN.ofFields', 'PGN.value']
+         'MessageId.ofFields', 'MessageId.can_id', 'PGN.ofFields', 'PGN.value',
+         'Tp22.cm', 'Tp22.rts', 'Tp22.cts', 'Tp22.eom_status', 'Tp22.eom_ack', 'Tp22.bam', 'Tp22.abort', 'Tp22.dt', 'Tp22.cm_control',
+         'Tp22.cm_session', 'Tp22.cm_size', 'Tp22.cm_segment', 'Tp22.cm_pgn', 'Tp22.cm_byte7', 'Tp22.dt_session', 'Tp22.dt_segment']
 ASSUMPTIONS = ["Model/Ref.lean and the Python reference peer (vlib/net21.py RefPeer21) are written from the SAE layouts and are trusted as the statement of the standard",
-               "J1939-22 (FD) frame layouts: translator units + correspondence/oracle only until Dll22 theorems exist",
+               "J1939-22 (FD): Ref.fdCm / Ref.fdDtHeader and the Python FD reference receiver (fd_reference_decode) are written from SAE J1939-22 and trusted likewise",
                "hold CTS frames arrive less than Th = 0.5 s apart (the stack re-arms with the responder's hold time)"]
 
 
@@ -48,13 +50,130 @@ def bam_cases(rng):
     return bad, desc
 
 
+LEGAL_FD = set(range(9)) | {12, 16, 20, 24, 32, 48, 64}
+
+
+def le24(d):
+    return d[0] | (d[1] << 8) | (d[2] << 16)
+
+
+def fd_reference_decode(bus):
+    """independent J1939-22 receiver written from the standard: walks a bus trace and reassembles every FD.TP session;
+    returns (messages [(src, dst, pgn, payload)], complaints)"""
+    open_, done, bad = {}, [], []
+    for (t, src_idx, cid, data, fd) in bus:
+        prio, pf, ps, sa = cid >> 26, (cid >> 16) & 0xFF, (cid >> 8) & 0xFF, cid & 0xFF
+        if fd and len(data) not in LEGAL_FD:
+            bad.append(f"FD frame {cid:#x} with {len(data)} data bytes: not a CAN FD length")
+        if pf == 0x4D:
+            if len(data) != 12:
+                bad.append(f"FD.TP.CM with {len(data)} bytes")
+                continue
+            ctl, sess = data[0] & 15, data[0] >> 4
+            size, seg, pgn = le24(data[1:4]), le24(data[4:7]), le24(data[9:12])
+            if ctl in (0, 4):
+                if ctl == 4 and ps != 255:
+                    bad.append("FD BAM not sent to 255")
+                if seg != (size + 59) // 60:
+                    bad.append(f"announcement: {seg} segments for {size} bytes")
+                if (sa, ps, sess) in open_:
+                    bad.append(f"session {sess} {sa:#x}->{ps:#x} announced again while it is open")
+                open_[(sa, ps, sess)] = dict(size=size, seg=seg, pgn=pgn, data=[], next=1, t=t)
+            elif ctl == 1:
+                o = open_.get((ps, sa, sess))
+                if o is None:
+                    bad.append(f"CTS {sa:#x}->{ps:#x} for session {sess} which the originator never announced")
+                else:
+                    if pgn != o['pgn']:
+                        bad.append(f"CTS carries PGN {pgn:#x}, session was announced with {o['pgn']:#x}")
+                    if data[7] and seg != o['next']:
+                        bad.append(f"CTS asks for segment {seg}, reference expects {o['next']}")
+            elif ctl == 2:
+                o = open_.pop((sa, ps, sess), None)
+                if o is None:
+                    bad.append(f"EndOfMsgStatus {sa:#x}->{ps:#x} for session {sess} that is not open")
+                else:
+                    if size != o['size'] or seg != o['seg'] or pgn != o['pgn']:
+                        bad.append(f"EndOfMsgStatus fields (size {size}, segments {seg}, PGN {pgn:#x}) differ from the announcement {o['size']}, {o['seg']}, {o['pgn']:#x}")
+                    if len(o['data']) < o['size']:
+                        bad.append(f"EndOfMsgStatus after {len(o['data'])} of {o['size']} bytes")
+                    if any(x != 255 for x in o['data'][o['size']:]):
+                        bad.append("padding after the message is not 0xFF")
+                    done.append((sa, ps, o['pgn'], o['data'][:o['size']]))
+            elif ctl == 3:
+                if pgn == 0xFFFFFF or size == 0xFFFFFF:
+                    bad.append("EndOfMsgACK without size/PGN")
+            elif ctl == 15:
+                open_.pop((sa, ps, sess), None)
+                open_.pop((ps, sa, sess), None)
+            else:
+                bad.append(f"unknown FD.TP.CM control {ctl}")
+        elif pf == 0x4E:
+            if len(data) < 5:
+                bad.append("FD.TP.DT without data")
+                continue
+            dtfi, sess, seg = data[0] & 15, data[0] >> 4, le24(data[1:4])
+            o = open_.get((sa, ps, sess))
+            if o is None:
+                bad.append(f"FD.TP.DT {sa:#x}->{ps:#x} session {sess} segment {seg}: no such session was announced")
+                continue
+            if dtfi != 0:
+                bad.append(f"FD.TP.DT with format indicator {dtfi}")
+            if seg != o['next']:
+                bad.append(f"FD.TP.DT segment {seg}, reference expects {o['next']}")
+                continue
+            o['data'] += data[4:]
+            o['next'] += 1
+            if seg < o['seg'] and len(data) != 64:
+                bad.append(f"FD.TP.DT segment {seg} of {o['seg']} carries {len(data) - 4} bytes")
+    return done, bad
+
+
+def fd_wire_case(rng):
+    """J1939-22: 2-3 real stacks, several concurrent sessions per originator (so that session numbers above 0 occur), all
+    residues mod 60 incl. the DLC steps; the bus trace is decoded by the independent reference receiver"""
+    n = rng.choice([2, 2, 3])
+    sc = net21.Scenario(C.REPO, rng.getrandbits(32), n, dll='j1939-22', maxcmdt=[rng.choice([1, 3, 255]) for _ in range(n)],
+                        latency=lambda r, a, b, f: r.choice([1, 1000]))
+    sent = []
+    for _ in range(rng.choice([1, 2, 4, 6])):
+        i = rng.randrange(n)
+        # residues around every step of the CAN FD length table (payload + 4 header bytes -> 8, 12, 16, 20, 24, 32, 48, 64)
+        steps = [1, 4, 5, 8, 9, 12, 13, 16, 17, 20, 21, 22, 23, 24, 25, 28, 29, 44, 45, 59, 0]
+        size = rng.choice([61 + rng.randrange(60), 60 * rng.randrange(1, 6) + rng.choice(steps), 60 * rng.randrange(1, 6) + rng.choice(steps),
+                           60 * 256 + rng.choice(steps + [rng.randrange(1, 60)]), 60 * rng.randrange(2, 6)])
+        size = max(size, 61)
+        data = rand_payload(rng, size)
+        if rng.random() < 0.35:
+            pf, ps = rng.choice([(254, 202), (255, 0), (100, 255), (240, 1)])
+            dp = 0
+        else:
+            j = rng.choice([x for x in range(n) if x != i])
+            pf, ps, dp = rng.choice([208, 0, 239]), sc.addrs[j], rng.choice([0, 0, 1])
+        if sc.send(i, dp, pf, ps, rng.choice([0, 3, 6, 7]), data):
+            sent.append((sc.addrs[i], 255 if (pf >= 240 or ps == 255) else ps, data))
+    sc.net.run(400_000_000, stop=lambda: sc.tables_empty() and sc.net.quiet())
+    done, bad = fd_reference_decode(sc.net.bus)
+    got = sorted(repr((a, b, d)) for (a, b, p, d) in done)
+    exp = sorted(repr(x) for x in sent)
+    if got != exp and not bad:
+        missing = [e for e in exp if e not in got]
+        bad.append(f"the reference receiver reassembled {len(got)} of {len(exp)} messages" + (f"; first missing {missing[0][:80]}" if missing else ""))
+    if sc.net.errors:
+        bad.append(f"exception {sc.net.errors[0]}")
+    r = net21.check_exactly_once(sc)
+    if r:
+        bad.append(r)
+    return bad, dict(role='fd-wire', n=n, sizes=[len(x[2]) for x in sent])
+
+
 def oracle(ctx, full):
     rng = random.Random(ctx.seed * 7907 + 3)
     n = ctx.n(80, 2500, full)
     findings, evals, distinct, samples = [], 0, set(), []
     for k in range(n):
         sub = random.Random(rng.getrandbits(48))
-        bad, desc = c09.stack_vs_peer(sub) if k % 3 else bam_cases(sub)
+        bad, desc = fd_wire_case(sub) if k % 4 == 3 else (c09.stack_vs_peer(sub) if k % 3 else bam_cases(sub))
         evals += 1
         distinct.add(C.struct_hash(desc))
         if len(samples) < 2:
@@ -66,7 +185,10 @@ def oracle(ctx, full):
                 rule="one real stack against the reference peer: originator role (CTS windows max/1/random within the RTS limit, 0-3 hold CTS spaced "
                      "1..400 ms, reply latency 0..150 ms), responder role (RTS limits 1..255, DT spacing 0..50 ms), BAM both roles (spacing "
                      "50..200 ms); the peer checks identifiers, control bytes, sizes, 1-based in-order sequence numbers, 0xFF padding and "
-                     "reassembles; the stack's deliveries and acknowledgement are checked against the message")
+                     "reassembles; the stack's deliveries and acknowledgement are checked against the message; every fourth case: J1939-22 — 2-3 real "
+                     "stacks with 1-6 concurrent sessions (sizes over all residues mod 60 and > 255 segments, data page 0/1, broadcasts), the bus "
+                     "trace decoded by an independent FD reference receiver (legal CAN FD lengths, session nibble of FD.TP.CM and FD.TP.DT, 24-bit "
+                     "size/segment/PGN fields, in-order segments, 0xFF padding, EndOfMsgStatus = announcement) which must reassemble every message")
 
 
 def replay(ctx, path):
